@@ -183,6 +183,18 @@ NETS = {
             ("lc", {"PS-C": 1, "PS-A": -0.5}, 30.1),
         ],
     },
+    # N16: a finite-rate EVSE whose levels are NOT whole amperes (steps of 7.5 A) under a pod that makes it stop at one of them
+    "N16": {
+        "stations": {
+            "PS-A": (("cont", 0, 32), 208, 30),
+            "PS-B": (("fin", [7.5, 15, 22.5, 30]), 208, 30),
+            "PS-C": (("fin", F6), 240, -90),
+        },
+        "constraints": [
+            ("pod", {"PS-A": 1, "PS-B": 1}, 47.3),
+            ("lb", {"PS-B": 1, "PS-C": -1}, 36.1),
+        ],
+    },
     # N9: an EVSE WITHOUT a maximum rate (EVSE(id): max = inf) next to a pod whose breaker does not involve it
     "N9": {
         "stations": {
